@@ -140,6 +140,39 @@ let handle_walk words =
         | Walk.Err rp -> "X" ^ show_path rp) evs)
   | _ -> "badcase"
 
+(* ---- unfoldg <loopcheck 0|1> <xdev 0|1> <fuel> <root entry> <graph> ----
+   entry: F | G | B | D<id>.<dev> ; graph: ';'-separated "<id>=<entry>,<entry>,..." ("<id>=!" cannot be read, "<id>=" empty)
+   result: the shape of the tree the follow mode makes of the graph (L G B D[...]), or "nofuel" *)
+let parse_gent (s : string) : WalkGraph.gent =
+  match s.[0] with
+  | 'F' -> WalkGraph.GFile | 'G' -> WalkGraph.GDang | 'B' -> WalkGraph.GBad
+  | 'D' -> (match split_on '.' (String.sub s 1 (String.length s - 1)) with
+            | [i; d] -> WalkGraph.GDir (nat_of_int (int_of_string i), nat_of_int (int_of_string d))
+            | _ -> failwith "gent")
+  | _ -> failwith "gent"
+
+let rec shape (n : Walk.node) : string =
+  match n with
+  | Walk.Leaf -> "L" | Walk.Dang -> "G" | Walk.Bad -> "B"
+  | Walk.Dir ch -> "D[" ^ String.concat "," (Stdlib.List.map (fun (_, x) -> shape x) ch) ^ "]"
+
+let handle_unfoldg words =
+  match words with
+  | [lc; xd; fuel; root; g] ->
+    let entry_list s = if s = "" then [] else Stdlib.List.mapi (fun i e -> (nat_of_int i, parse_gent e)) (split_on ',' s) in
+    let graph = if g = "~" then [] else Stdlib.List.map (fun kv ->
+        match split_on '=' kv with
+        | [i; "!"] -> (nat_of_int (int_of_string i), None)
+        | [i; l] -> (nat_of_int (int_of_string i), Some (entry_list l))
+        | [i] -> (nat_of_int (int_of_string i), Some [])
+        | _ -> failwith "graph") (split_on ';' g) in
+    let r = parse_gent root in
+    let rootdev = (match r with WalkGraph.GDir (_, d) -> d | _ -> O) in
+    (match WalkGraph.unfold graph (lc = "1") (xd = "1") rootdev (nat_of_int (int_of_string fuel)) [] true r with
+     | None -> "nofuel"
+     | Some t -> shape (WalkGraph.erase t))
+  | _ -> "badcase"
+
 (* ---- expr mind maxd post tokens roots ----
    tokens: t<pid> a<pid> q<pid> r<pid> n A O C L R (comma separated, "~" = none)
    roots: ';'-separated "<tree>|<id=bits,...>" (bits.[pid] = truth of primary pid on that entry; id r = the root)
@@ -216,7 +249,13 @@ let handle_glob words =
 (* rxwrap ext pattern(cps) -> inside_group text (cps) *)
 let handle_rxwrap words =
   match words with
-  | [ext; pat] -> show_cps (RegexWrap.inside_group (ext = "1") (cps pat))
+  | [ty; pat] ->
+    (* extended groups; character classes; newline = alternation *)
+    let (ext, cls, nl) = (match ty with
+        | "emacs" -> (false, false, false) | "grep" -> (false, true, true)
+        | "posix-extended" -> (true, true, false) | "posix-basic" | "ed" | "sed" -> (false, true, false)
+        | _ -> failwith "regextype") in
+    show_cps (RegexWrap.inside_group ext cls nl (cps pat))
   | _ -> "badcase"
 
 (* ---- paths ---- *)
@@ -273,7 +312,7 @@ let handle_delete words =
     (if r.Delete.removed = [] then "~" else String.concat "," (Stdlib.List.map (fun rp -> match rp with [] -> "r" | id :: _ -> string_of_int (int_of_nat id)) r.Delete.removed))
   | _ -> "badcase"
 
-(* ---- execm execdir budget failing(invocation numbers, ~) entries(id:cost:single:parent|-:reached,...)
+(* ---- execm execdir budget failing(invocation numbers, ~) entries(id:cost:single:parent|-:reached[:own],...)
         -> "<failed> <pending 0/1> <cwd|-:id.id...> ..." ---- *)
 let handle_execm words =
   match words with
@@ -281,9 +320,10 @@ let handle_execm words =
     let fails = Stdlib.List.map int_of_string (list_of failing) in
     let ok i = not (Stdlib.List.mem (int_of_nat i) fails) in
     let es = Stdlib.List.map (fun e -> match split_on ':' e with
-        | [id; cost; single; parent; reached] ->
+        | id :: cost :: single :: parent :: reached :: own ->
           { ExecMulti.eid = nat_of_int (int_of_string id); ecost = big_n cost; esingle = (single = "1");
-            eparent = (if parent = "-" then None else Some (nat_of_int (int_of_string parent))); reached = (reached = "1") }
+            eparent = (if parent = "-" then None else Some (nat_of_int (int_of_string parent))); reached = (reached = "1");
+            eown = (own = ["1"]) }
         | _ -> failwith "entry") (list_of entries) in
     let s = ExecMulti.run (execdir = "1") (big_n budget) ok es in
     let show (cwd, b) = (match cwd with None -> "-" | Some d -> string_of_int (int_of_nat d)) ^ ":" ^
@@ -294,6 +334,9 @@ let handle_execm words =
 let show_n n = (* decimal of a binary natural, via OCaml ints where it fits *) string_of_int (int_of_n n)
 let handle_limits words =
   match words with
+  | ["find_budget"; argmax; env; prog; fixed] ->
+    let envl = Stdlib.List.map (fun kv -> match split_on ':' kv with [k; v] -> (big_n k, big_n v) | _ -> failwith "env") (list_of env) in
+    show_n (ExecLimits.find_budget (big_n argmax) envl (big_n prog) (Stdlib.List.map big_n (list_of fixed)))
   | ["argmax_budget"; argmax; env; prog; fixed] ->
     let envl = Stdlib.List.map (fun kv -> match split_on ':' kv with [k; v] -> (big_n k, big_n v) | _ -> failwith "env") (list_of env) in
     show_n (ExecLimits.argmax_budget (big_n argmax) envl (big_n prog) (Stdlib.List.map big_n (list_of fixed)))
@@ -426,7 +469,7 @@ let handle_args words =
   | _ -> "badcase"
 
 let handlers : (string * (string list -> string)) list ref =
-  ref [ ("xread", handle_xread); ("xargs", handle_xargs); ("xrepl", handle_xrepl); ("xnorm", handle_xnorm); ("walk", handle_walk); ("expr", handle_expr); ("num", handle_num); ("glob", handle_glob); ("rxwrap", handle_rxwrap); ("paths", handle_paths); ("delete", handle_delete); ("execm", handle_execm); ("limits", handle_limits); ("entry", handle_entry); ("regex", handle_regex); ("printf", handle_printf); ("pv", handle_pv); ("args", handle_args) ]
+  ref [ ("xread", handle_xread); ("xargs", handle_xargs); ("xrepl", handle_xrepl); ("xnorm", handle_xnorm); ("walk", handle_walk); ("unfoldg", handle_unfoldg); ("expr", handle_expr); ("num", handle_num); ("glob", handle_glob); ("rxwrap", handle_rxwrap); ("paths", handle_paths); ("delete", handle_delete); ("execm", handle_execm); ("limits", handle_limits); ("entry", handle_entry); ("regex", handle_regex); ("printf", handle_printf); ("pv", handle_pv); ("args", handle_args) ]
 
 let () =
   try while true do
